@@ -4,9 +4,12 @@ import TrustfallModel.Model.IRWF
 /-! Driver commands of the `toir` group (C11):
 * `(compile <schema> <tree>)` → `toIR` rendered in the `(ir …)` syntax of ENGINE_PROTOCOL.md, or
   `(err <variant>)`;
-* `(spec-wf <ir>)` → `1`/`0`: the decidable `WF` on a (real) IR;
-* `(indexed <ir>)` → `1`/`0`: the model of `IndexedQuery::try_from(ir).is_ok()`;
-* `(outs <ir>)` → `(outs (<name> <ty> <vid>)…)`: the model of `IndexedQuery.outputs`. -/
+* `(accepts <schema> <tree>)` → `1`/`0`: `toIR` succeeds;
+* `(spec-wf <schema> <tree> <ir>)` → `1`/`0`: the decidable `WF` on a (real) IR;
+* `(indexed <schema> <tree> <ir>)` → `1`/`0`: the model of `IndexedQuery::try_from(ir).is_ok()`;
+* `(outs <schema> <tree> <ir>)` → `(outs (<name> <ty> <vid>)…)`: the model of
+  `IndexedQuery.outputs`.
+(The implementation side uses `<schema> <tree>` to check that `<ir>` is the real IR of the tree.) -/
 namespace TF.Driver
 open TF TF.Engine TF.Frontend
 
@@ -105,13 +108,19 @@ def handleToir : Handler
     match toIR S q with
     | .ok ir => pure (renderIR ir)
     | .error e => pure (sx ["err", e.name])
-  | "spec-wf", [ir] => do
+  | "accepts", [schema, tree] => do
+    let S ← parseSchemaView schema
+    let q ← Spec.parseQuery tree
+    match toIR S q with
+    | .ok _ => pure "1"
+    | .error _ => pure "0"
+  | "spec-wf", [_schema, _tree, ir] => do
     let q ← parseIR ir
     pure (bit (WF q))
-  | "indexed", [ir] => do
+  | "indexed", [_schema, _tree, ir] => do
     let q ← parseIR ir
     pure (bit (indexedOk q))
-  | "outs", [ir] => do
+  | "outs", [_schema, _tree, ir] => do
     let q ← parseIR ir
     pure (renderOuts (outputsOf q))
   | _, _ => none
